@@ -486,32 +486,8 @@ func rejected(d desc, r reqD) bool {
 	return false
 }
 
-func keyOf(d desc) string {
-	if !d.Stream {
-		return ""
-	}
-	for _, r := range d.Reqs {
-		live := (r.Fr == "fixed" || r.Fr == "chunked" || (r.Fr == "multipart" && !d.PrePar)) && !rejected(d, r) && !(d.GetOnly && r.Method != "GET")
-		if !live {
-			continue
-		}
-		hasBad := false
-		for _, c := range r.Chunks {
-			if c.Bad {
-				hasBad = true
-			}
-		}
-		switch {
-		case r.Fin == "detach":
-			return "stream-detached-undrained"
-		case r.Fin == "timeout":
-			return "timeout-stream-undrained"
-		case hasBad && r.Rd != "none":
-			return "stream-error-not-sticky"
-		}
-	}
-	return ""
-}
+// keyOf: no known finding class is left for C02 (detach / timeout / sticky error were fixed in /repo)
+func keyOf(d desc) string { return "" }
 
 // ---------------------------------------------------------------------------
 // generation
@@ -738,7 +714,7 @@ func corpus() []desc {
 			// multipart with an epilogue inside Content-Length
 			one(base, reqD{Method: "POST", Fr: "multipart", N: 64, Rd: "none", Fin: "none"})
 			one(base, reqD{Method: "POST", Fr: "multipart", N: 64, MpBad: true, Rd: "none", Fin: "none"})
-			// the known findings' witnesses
+			// the witnesses of the former findings (detach, timeout, broken chunk read by the handler)
 			one(base, reqD{Method: "POST", Fr: "fixed", N: 10000, Rd: "none", Fin: "detach"})
 			one(base, reqD{Method: "POST", Fr: "fixed", N: 10000, Rd: "none", Fin: "timeout"})
 			one(base, reqD{Method: "POST", Fr: "fixed", N: 16384, Rd: "upto", K: 8192, Fin: "timeout"})
@@ -747,6 +723,14 @@ func corpus() []desc {
 			one(base, reqD{Method: "POST", Fr: "chunked", Chunks: []chunkD{{Size: 5, Line: "5", Bad: true}, {Size: 64, Line: "40"}}, Rd: "eof", Fin: "none"})
 			one(base, reqD{Method: "POST", Fr: "chunked", Chunks: []chunkD{{Size: 5, Line: "5", Bad: true}, {Size: 64, Line: "40"}}, Rd: "eof", Fin: "detach"})
 			one(base, reqD{Method: "POST", Fr: "chunked", Chunks: []chunkD{{Size: 5, Line: "5", Bad: true}, {Size: 64, Line: "40"}}, Rd: "none", Fin: "none"})
+			// detaching a stream that was read to its end keeps the connection; all data bytes of a chunked body without
+			// the last-chunk is not the end
+			one(base, reqD{Method: "POST", Fr: "fixed", N: 10000, Rd: "eof", Fin: "detach"})
+			one(base, reqD{Method: "POST", Fr: "fixed", N: 10000, Rd: "upto", K: 10000, Fin: "detach", Detach: 2})
+			one(base, reqD{Method: "POST", Fr: "fixed", N: 10000, Rd: "upto", K: 9999, Fin: "detach"})
+			one(base, reqD{Method: "POST", Fr: "chunked", Chunks: []chunkD{{Size: 64, Line: "40"}, {Size: 64, Line: "40"}}, Rd: "eof", Fin: "detach"})
+			one(base, reqD{Method: "POST", Fr: "chunked", Chunks: []chunkD{{Size: 64, Line: "40"}, {Size: 64, Line: "40"}}, Rd: "upto", K: 128, Fin: "detach", Detach: 1})
+			one(base, reqD{Method: "POST", Fr: "fixed", N: 10000, Rd: "eof", Fin: "timeout"})
 			// hijack / connection close
 			one(base, reqD{Method: "POST", Fr: "fixed", N: 10000, Rd: "none", Fin: "hijack"})
 			one(base, reqD{Method: "POST", Fr: "fixed", N: 10000, Rd: "none", Fin: "connclose"})
